@@ -198,18 +198,21 @@ def database_dir() -> str:
     os.makedirs(target)
     with open(os.path.join(target, "transATor.hmm"), "w", encoding="utf-8"):
         pass
-    pfam = os.path.join(path, "pfam", "35.0")
-    os.makedirs(pfam)
-    with open(os.path.join(pfam, "Pfam-A.hmm"), "w", encoding="utf-8") as handle:
-        for name, (accession, cutoff) in PFAM_PROFILES.items():
-            handle.write(f"HMMER3/f [3.1b2 | February 2015]\nNAME  {name}\nACC   {accession}\nDESC  simulated {name}\n"
-                         f"LENG  60\nTC    {cutoff} {cutoff};\n//\n")
-    stamp = os.path.getmtime(os.path.join(pfam, "Pfam-A.hmm")) + 5
-    for ext in ("h3f", "h3i", "h3m", "h3p"):
-        pressed = os.path.join(pfam, f"Pfam-A.hmm.{ext}")
-        with open(pressed, "w", encoding="utf-8") as handle:
-            handle.write("placeholder for hmmpress output\n")
-        os.utime(pressed, (stamp, stamp))
+    # two Pfam releases: the accession versions differ, so results name the release they came from
+    for release, bump in (("35.0", 0), ("34.0", -1)):
+        pfam = os.path.join(path, "pfam", release)
+        os.makedirs(pfam)
+        with open(os.path.join(pfam, "Pfam-A.hmm"), "w", encoding="utf-8") as handle:
+            for name, (accession, cutoff) in PFAM_PROFILES.items():
+                base, version = accession.split(".")
+                handle.write(f"HMMER3/f [3.1b2 | February 2015]\nNAME  {name}\nACC   {base}.{int(version) + bump}\n"
+                             f"DESC  simulated {name}\nLENG  60\nTC    {cutoff} {cutoff};\n//\n")
+        stamp = os.path.getmtime(os.path.join(pfam, "Pfam-A.hmm")) + 5
+        for ext in ("h3f", "h3i", "h3m", "h3p"):
+            pressed = os.path.join(pfam, f"Pfam-A.hmm.{ext}")
+            with open(pressed, "w", encoding="utf-8") as handle:
+                handle.write("placeholder for hmmpress output\n")
+            os.utime(pressed, (stamp, stamp))
     for subdir, filename, table in (("tigrfam", "TIGRFam.hmm", TIGR_PROFILES), ("resfam", "Resfams.hmm", RESFAM_PROFILES)):
         os.makedirs(os.path.join(path, subdir))
         with open(os.path.join(path, subdir, filename), "w", encoding="utf-8") as handle:
